@@ -54,6 +54,13 @@ let u64_of_float (f : float) : int64 =
   if f >= 9223372036854775808.0 then Int64.add (Int64.of_float (f -. 9223372036854775808.0)) Int64.min_int
   else Int64.of_float f
 
+(* signed conversions: outside the range of the RESULT CLASS the hardware answer is not the wrapped mathematical
+   value: amd64 cvttsd2si (the 32-bit form for class w) gives the "integer indefinite" value.  Modelling that (rather
+   than wrapping a 64-bit conversion) keeps `w dtosi` distinguishable from `w dtoui` on values in [2^31, 2^32). *)
+let tosi (wide : bool) (f : float) : int64 =
+  if wide then (if Float.is_nan f || f >= 9223372036854775808.0 || f < -9223372036854775808.0 then Int64.min_int else Int64.of_float f)
+  else (if Float.is_nan f || f >= 2147483648.0 || f <= -2147483649.0 then 0x80000000L else Int64.of_float f)
+
 let fo : fops = {
   f_bin = (fun dbl op a b ->
       let x, y = if dbl then dbl_of_bits a, dbl_of_bits b else sgl_of_bits a, sgl_of_bits b in
@@ -69,8 +76,8 @@ let fo : fops = {
       match c with
       | Cexts -> bits_d (sgl_of_bits a)
       | Ctruncd -> bits_s (dbl_of_bits a)
-      | Cstosi -> u64_big (Int64.of_float (sgl_of_bits a))
-      | Cdtosi -> u64_big (Int64.of_float (dbl_of_bits a))
+      | Cstosi -> u64_big (tosi wide (sgl_of_bits a))
+      | Cdtosi -> u64_big (tosi wide (dbl_of_bits a))
       | Cstoui -> u64_big (u64_of_float (sgl_of_bits a))
       | Cdtoui -> u64_big (u64_of_float (dbl_of_bits a))
       | Cswtof -> let f = float_of_int (to_s32 a) in if wide then bits_d f else bits_s f
